@@ -21,34 +21,46 @@ def run(ctx):
         "Not decided: configuration values; data-key equality is enforced at run time by event_model.")
     cf = rm.b("configure")
     g = q.cfg(cf, q.quiet_policy(repo))
-    loops = [s for s in A.walk_stmts(cf.node.body) if isinstance(s, ast.For) and "self._descriptors" in A.norm(s.iter)]
-    ok = bool(loops)
-    ctx.ob("C16.D1-reprepare-after-configure", cname(cf, None, "every stream with a descriptor is visited"), ok, "" if ok else "configure no longer visits the existing descriptors", where=where(cf, cf.node))
     rereads = q.stmts(cf, q.stmt_calls("_cache_read_config"))
     ctx.ob("C16.D1-reprepare-after-configure", cname(cf, None, "the object's configuration is re-read"), bool(rereads),
            "" if rereads else "new descriptors would carry the configuration cached before configure", where=where(cf, cf.node))
-    if loops and rereads:
-        lp = loops[0]
-        w = q.dominated(g, lp, lambda n: n.stmt is rereads[0] and n.kind == "stmt")
-        ctx.ob("C16.D1-reprepare-after-configure", cname(cf, None, "re-read dominates the re-prepare loop"), w is None,
-               "" if w is None else "descriptors are re-made before the new configuration is read", nontrivial=True, witness=w, where=where(cf, lp))
+    if rereads:
+        # (a) on every path: also when no stream contains the object yet, later descriptors are built from this cache
+        w = g.must_pass([g.entry], lambda n: n.stmt is rereads[0] and n.kind == "stmt", exits=[g.exit])
+        ctx.ob("C16.D1-reprepare-after-configure", cname(cf, None, "the re-read happens on every path through configure"), w is None,
+               "" if w is None else "configure can return without re-reading the object's configuration: descriptors made later for this object "
+               "record the configuration cached before the change", nontrivial=True, witness=w[-6:] if w else None, where=where(cf, rereads[0]))
+    preps = [s for s in A.walk_stmts(cf.node.body) if not isinstance(s, (ast.If, ast.For, ast.While, ast.Try)) and A.find_calls(s, "_prepare_stream")]
+    ctx.ob("C16.D1-reprepare-after-configure", cname(cf, None, "streams are re-prepared"), bool(preps), "" if preps else "no descriptor is re-made", where=where(cf, cf.node))
+    for ps_stmt in preps:
+        if rereads:
+            w = q.dominated(g, ps_stmt, lambda n: n.stmt is rereads[0] and n.kind == "stmt")
+            ctx.ob("C16.D1-reprepare-after-configure", cname(cf, None, "re-read dominates re-making the descriptors"), w is None,
+                   "" if w is None else "descriptors are re-made before the new configuration is read", nontrivial=True, witness=w, where=where(cf, ps_stmt))
+    loops = [s for s in A.walk_stmts(cf.node.body) if isinstance(s, ast.For) and any(A.find_calls(x, "_prepare_stream") for x in A.walk_stmts(s.body))]
+    ok = False
+    lp = loops[0] if loops else None
+    if lp is not None:
+        it = lp.iter
+        src = A.norm(it)
+        if isinstance(it, ast.Name):
+            nids = g.nodes_of(lp)
+            defs = q.reaching_defs(g, [n for n in nids if g.nodes[n].kind == "iter"][0], it.id) if nids else []
+            src = " ".join(A.norm(v) for k, v, n in defs)
+        ok = "self._descriptors" in src and not any(isinstance(x, (ast.Break, ast.Return)) for x in A.walk_stmts(lp.body))
+        ok = ok and ("list(" in src or "[" in src or "tuple(" in src)
+    ctx.ob("C16.D1-reprepare-after-configure", cname(cf, None, "every stream with a descriptor is considered (over a copy), none skipped"), ok,
+           "" if ok else "not every existing stream is refreshed (or the dict is mutated while iterated)", nontrivial=True, where=where(cf, lp or cf.node))
+    txt = A.norm(cf.node)
+    ok = ("obj in obj_set" in txt or "obj in self._descriptor_objs[name]" in txt)
+    ctx.ob("C16.D1-reprepare-after-configure", cname(cf, None, "only streams containing the object are re-made"), ok, "" if ok else "membership test changed", where=where(cf, cf.node))
+    if lp is not None:
         body = list(A.walk_stmts(lp.body))
-        test = [s for s in body if isinstance(s, ast.If) and A.norm(s.test) in ("obj in obj_set", "obj in self._descriptor_objs[name]")]
-        ok = bool(test)
-        ctx.ob("C16.D1-reprepare-after-configure", cname(cf, None, "only streams containing the object are re-made"), ok, "" if ok else "membership test changed", where=where(cf, lp))
-        if test:
-            tb = test[0].body
-            has_del = any(isinstance(s, ast.Delete) and "self._descriptors[name]" in A.norm(s) for s in tb)
-            prep = [c for s in tb for c in A.calls_in(s) if (A.call_name(c) or "").endswith("_prepare_stream")]
-            ok = has_del and bool(prep) and [A.norm(a) for a in prep[0].args] == ["name", "obj_set"]
-            ctx.ob("C16.D1-reprepare-after-configure", cname(cf, None, "old bundle dropped; new descriptor prepared for the same stream and object set"), ok,
-                   "" if ok else "the stream keeps referencing the stale descriptor / is re-made with other objects", nontrivial=True, where=where(cf, lp))
-            ok = "obj_set = self._descriptor_objs[name]" in A.norm(lp)
-            ctx.ob("C16.D1-reprepare-after-configure", cname(cf, None, "object set = the descriptor's recorded objects (unchanged data keys)"), ok, "" if ok else "object set source changed", where=where(cf, lp))
-        ok = not any(isinstance(s, (ast.Break, ast.Return)) for s in body)
-        ctx.ob("C16.D1-reprepare-after-configure", cname(cf, None, "no early exit from the loop"), ok, "" if ok else "only the first stream is refreshed", where=where(cf, lp))
-        ok = A.norm(lp.iter) in ("list(self._descriptors)", "list(self._descriptors.keys())", "tuple(self._descriptors)")
-        ctx.ob("C16.D1-reprepare-after-configure", cname(cf, None, "iterates a copy of the keys (the loop mutates the dict)"), ok, "" if ok else "mutation during iteration", where=where(cf, lp))
+        has_del = any(isinstance(s2, ast.Delete) and "self._descriptors[name]" in A.norm(s2) for s2 in body)
+        prep = [c for s2 in body for c in A.calls_in(s2) if (A.call_name(c) or "").endswith("_prepare_stream")] if not isinstance(lp, type(None)) else []
+        ok = has_del and bool(prep) and A.norm(prep[0].args[0]) == "name" and A.norm(prep[0].args[1]) in ("obj_set", "self._descriptor_objs[name]")
+        ctx.ob("C16.D1-reprepare-after-configure", cname(cf, None, "old bundle dropped; new descriptor prepared for the same stream and object set"), ok,
+               "" if ok else "the stream keeps referencing the stale descriptor / is re-made with other objects", nontrivial=True, where=where(cf, lp))
     # D2
     ps = rm.b("_prepare_stream")
     d = None
